@@ -80,24 +80,23 @@ def run(prop, tier, replay=None):
         scenarios += fe.gen_scenarios(seed, ngen)
 
     lines, wall, bwall = fe.replay(work, scenarios, shards)
-    bad = {}
-    for ln in lines:
-        if ln["ev"] == "Slow":
-            bad.setdefault(ln["t"], "slow")
-        if ln["ev"] == "Timeout":
-            bad[ln["t"]] = "timeout: " + str(ln["a"].get("what"))
-    timeouts = {t: w for t, w in bad.items() if w != "slow"}
-    if len(timeouts) > max(2, len(scenarios) // 50):
-        raise vlib.Broken("the harness could not drive the watcher in %d scenarios, e.g. %s" % (len(timeouts), sorted(timeouts.items())[:3]))
+    bad = {ln["t"] for ln in lines if ln["ev"] == "Slow"}      # wall-clock compromised: not judged
     lines = [ln for ln in lines if ln["t"] not in bad]
-    print("ran %d chain histories (%d recorded lines) on the real Watcher.Run in %.1fs (build %.1fs); %d discarded (slow/timeout)"
-          % (len(scenarios), len(lines), wall, bwall, len(bad)))
+    ran = len({ln["t"] for ln in lines})
+    print("ran %d of %d chain histories (%d recorded lines) on the real Watcher.Run in %.1fs (build %.1fs); %d discarded as slow"
+          % (ran, len(scenarios), len(lines), wall, bwall, len(bad)))
     rejs, r = fe.validate(work, lines, parallel=shards)
     print("trace validation: %d states, %.1fs, %d rejected line(s)" % (r["distinct"], r["wall_s"], len(rejs)))
 
     byn = {(ln["t"], ln["n"]): i for i, ln in enumerate(lines)}
     verdict = vlib.Verdict(prop)
+    timeouts = []
     for rj in rejs:
+        if rj.get("ev") == "Timeout":
+            # the harness gave up waiting at this point (everything before it was accepted): not a verdict
+            i = byn.get((rj["t"], rj["n"]))
+            timeouts.append((rj["t"], lines[i]["a"].get("what") if i is not None else "?"))
+            continue
         if str(rj.get("why", "")).startswith("node"):
             raise vlib.Broken("fake node / harness disagrees with EvmChain.tla at trace %s line %s (%s): %s"
                               % (rj["t"], rj["n"], rj["ev"], json.dumps(lines[byn[(rj["t"], rj["n"])]]) if (rj["t"], rj["n"]) in byn else "?"))
@@ -109,6 +108,8 @@ def run(prop, tier, replay=None):
         for sg in (sig if isinstance(sig, list) else [sig]):
           verdict.add(sg, {"line": ln, "why": rj.get("why"), "spec_state": rj.get("spec"), "tlc": rj.get("tlc"),
                            "trace": [x for x in lines if x["t"] == rj["t"] and x["n"] <= rj["n"]][-25:], "scenario": sc})
+    if not verdict.items and len(timeouts) > max(2, ran // 50):
+        raise vlib.Broken("the harness could not drive the watcher in %d scenarios, e.g. %s" % (len(timeouts), timeouts[:3]))
     rc = verdict.finish()
 
     # ---- coverage actually reached by this run
@@ -157,7 +158,7 @@ def run(prop, tier, replay=None):
             eff["push:" + ("delivered" if a["delivered"] else "filtered")] += 1
         if ev in ("Reorg", "Remine", "DropReceipt", "FailTx", "Arm"):
             eff["env:" + ev + (":" + a["kind"] if ev == "Arm" else "")] += 1
-    ok_traces = len(scenarios) - len(bad)
+    ok_traces = ran - len(timeouts)
     sample = [{"source": sc.get("src"), "cfg": sc["cfg"], "init": sc["init"], "steps": sc["steps"][:8]} for sc in scenarios[:1] + scenarios[-1:]]
     cov = {
         "states": mc_states if not replay else max(r["distinct"], 1),
@@ -173,7 +174,7 @@ def run(prop, tier, replay=None):
         "mc_configs": mcs, "trace_spec_states": r["distinct"], "line_kinds": dict(acts), "effects_observed": dict(eff),
         "scenario_sources": dict(Counter(sc.get("src") for sc in scenarios)),
         "modes": dict(Counter("finalized" if sc["cfg"]["fin"] else "latest" for sc in scenarios)),
-        "discarded": len(bad), "rejected_lines": len(verdict.items), "known_findings_matched": getattr(verdict, "n_known", 0),
+        "discarded_slow": len(bad), "harness_timeouts": len(timeouts), "rejected_lines": len(verdict.items), "known_findings_matched": getattr(verdict, "n_known", 0),
         "signatures": dict(Counter(s for s, _ in verdict.items)),
         "exhaustive": False,
     }
